@@ -328,6 +328,11 @@ func (x *Exec) park(t *thread, fill func(t *thread)) int {
 	}
 	m := <-t.wake
 	if m.abort {
+		if t.op == opPoint {
+			// parked in front of a non-blocking operation (possibly inside a deferred call): the
+			// operation is carried out and the thread unwinds at its next blocking operation, see Point
+			return 0
+		}
 		panic(abortSentinel{})
 	}
 	return m.chosen
@@ -730,7 +735,13 @@ func (x *Exec) decide() {
 		if step < len(x.prefix) {
 			choice = x.prefix[step]
 			if choice >= len(opts) {
-				x.end(EndEngine, fmt.Sprintf("replay divergence at step %d: choice %d of %d options", step, choice, len(opts)))
+				var have []string
+				for _, o := range opts {
+					if o.t != nil {
+						have = append(have, o.t.name+" at "+o.t.pid)
+					}
+				}
+				x.end(EndEngine, fmt.Sprintf("replay divergence at step %d: choice %d of %d options (the run that recorded this prefix had more): state outside the scenario's Setup survived an execution; options now: %s; blocked: %s", step, choice, len(opts), strings.Join(have, " | "), x.describeBlocked()))
 				return
 			}
 		}
